@@ -406,7 +406,7 @@ def main():
             cf = ck.write_replay("case_%s_%d.txt" % (re.sub(r"\W+", "_", key), ci), "\n".join(lines) + "\n")
             rp = {"case_file": cf, "case": lines, "implementation_output": o, "monitor": m or [msg], "points": small["pts"],
                   "replay_cmd": "python3 tools/c17.py --replay %s" % cf}
-            ck.violation(key, rp, "spec monitor (exhaustive search) fails on the implementation: " + (m or [msg])[0])
+            ck.violation(key, rp, "spec monitor (exhaustive search / tree well-formedness) fails on the implementation: " + (m or [msg])[0])
     unknown_mon = [k for k in failing if ck.match_known(k) is None]
     ck.oblige("spec monitor (exhaustive search) on %d cases" % len(cases), not unknown_mon, "; ".join("%s: %d" % (k, len(failing[k])) for k in unknown_mon))
 
@@ -462,7 +462,7 @@ def main():
     ck.cov["distinct_nontrivial"] = len(set((c["kind"], c["bucket"], str(c["pts"]), l) for c in cases if len(c["pts"]) >= 3 for l in c["body"]))
     ck.cov["rule"] = ("data sets of 1..24 (60 thorough) integer points in dimension 1-4 (small ranges with duplicates, wide ranges, collinear, one repeated coordinate value, copies of few points); "
                       "queries in half units: inside, equal to data points, far outside (300..2000), exactly on / one half-unit next to the real splitting planes; every query asks for all n neighbours through "
-                      "IterativeNNQuery::next and k=1..n through TreeNearestNeighbors::getNeighbors; non-trivial = at least 3 points; distinct = distinct (tree kind, data set, query)")
+                      "IterativeNNQuery::next and k=1..n through TreeNearestNeighbors::getNeighbors; construction: the tree of every kd data set is rebuilt by the extracted kd_build from the recorded results of the real std::nth_element calls and compared node by node (see construction_model); non-trivial = at least 3 points; distinct = distinct (tree kind, data set, query)")
     ck.cov["samples"] = [case_lines(c)[:3] for c in cases[:2]]
     ck.cov["traces_validated_against_impl"] = len(kd) - len([ci for ci in kd if ci in mon_failed_cases])
     ck.cov["disagreements_checked"] = len(dis) + len(mon_failed_cases)
